@@ -16,6 +16,10 @@ exactly the class predicates of the known findings plus well-formedness of a sin
   * `noOpaque`        — finding 12 (opaque whiteouts hide nothing)
   * `noRecreateAt`    — finding 10 (deleted, re-created later, lower children reappear)
   * `noImplicitOverExplicitAt` — new: a directory a layer only implies loses the metadata of the lower layer's entry
+  * (driver clause `rejected-shadow` / `rejected-parents`, Spec/OverlayRejected.lean) — an entry the loader cannot expose
+    (regular file of MaxFileBytes or more, symbolic link out of the root) is read by the specification as a whiteout of its
+    path; the loader leaves no node and the older object shows through: finding C04/rejected-entry-shows-older-file,
+    witness `C04_view_fails_rejected`, bridge `C04_view_rejected_partial`
 
 Audit-1 notes.
 * `C04_squash` ("the squashed on-disk unpacking holds the regular files of the final view") has NO theorem: the unpack
@@ -42,6 +46,7 @@ import Scalibr.Model.OverlayImage
 import Scalibr.Proofs.OverlayImage
 import Scalibr.Spec.OverlayRequired
 import Scalibr.Proofs.OverlayRequired
+import Scalibr.Spec.OverlayRejected
 namespace Scalibr.Overlay
 
 /-- **C04, partial form.** For every image, view `j` and path: when `H` holds for the layers of the view, what the
@@ -330,6 +335,23 @@ theorem C04_view_fails_duplicate :
 theorem C04_duplicate_first_wins_witness :
     failingOf exDup 1 = ["ill-dup"] ∧ H (exDup.map (dedupFirst [])) 1 = true ∧
     obsOf ((viewOf exDup 1).get ["a","x"]) = obsOf ((specView (exDup.map (dedupFirst [])) 1).get ["a","x"]) := by decide
+
+/-- an entry the loader rejects (size limit: C10 forbids showing it; symbolic link out of the root): the specification reads
+it as a whiteout of its path (`specEffective`), the loader drops it (`effective`).  Layer 1 replaces `a` by a file of
+MaxFileBytes or more: view 1 of the loader still has layer 0's `a` (known finding C04/rejected-entry-shows-older-file) -/
+def exRej : List (List PEntry) :=
+  [[⟨fE ["a"] 1, ["a"], .accept⟩], [⟨⟨["a"], .file, false, 0o644, 100, 2, []⟩, ["a"], .big⟩]]
+theorem C04_view_fails_rejected :
+    obsOf ((viewOf (exRej.map effective) 1).get ["a"]) ≠ obsOf ((specView (exRej.map specEffective) 1).get ["a"]) ∧
+    obsOf ((specView (exRej.map specEffective) 1).get ["a"]) = .absent ∧ rejectedShadowsAt exRej 1 = true := by decide
+
+/-- **C04 with rejected entries, partial form**: where `H` holds and reading the rejected entries as whiteouts changes
+nothing in view `j` (decided by the driver path by path; it is so whenever no rejected entry has anything older, or of its
+own archive, at or beneath its path), the loader's view is the view of the specification's reading. -/
+theorem C04_view_rejected_partial (chain : List (List PEntry)) (j : Nat) (h : H (chain.map effective) j = true)
+    (hr : ∀ q, obsOf ((specView (chain.map effective) j).get q) = obsOf ((specView (chain.map specEffective) j).get q)) (q : Path) :
+    obsOf ((viewOf (chain.map effective) j).get q) = obsOf ((specView (chain.map specEffective) j).get q) := by
+  rw [C04_view_partial _ j h q]; exact hr q
 
 /-- the clauses of `H` each witness violates (29 and 30 necessarily overlap: both need a path mentioned twice in one tar) -/
 theorem C04_witness_classes :
